@@ -40,7 +40,7 @@ def mapping_listing(a):
     return out
 
 
-def run_la_impl(hist, member_names=False, recycle_lists=False):
+def run_la_impl(hist, member_names=False, recycle_lists=False, by_index=False):
     """-> (number of calls accepted before the first rejection, error family or None, {layer: [identifiers]} in order)
     member_names: module names and patterns are passed as StrMember objects (equal to, and hashing like, the plain strings)
     and the definition is read through the mapping instead of its text
@@ -84,6 +84,16 @@ def run_la_impl(hist, member_names=False, recycle_lists=False):
             fam = rules.classify_exception(e)
             break
         k += 1
+    if by_index:
+        # names the text form cannot carry (the empty string): the definition is read through architecture[layer] for every
+        # layer name the history mentions, in the order of first mention
+        listing = []
+        for nm in dict.fromkeys(c[1] for c in hist if c[0] == "layer"):
+            try:
+                listing.append((nm, [str.__str__(f.identifier) for f in a[nm]]))
+            except KeyError:
+                pass
+        return k, fam, listing, a
     return k, fam, (mapping_listing(a) if member_names else parse_arch_str(str(a))), a
 
 
